@@ -246,7 +246,7 @@ func c10Vector(c *Ctx, raw stdjson.RawMessage) {
 
 func c10Replay(c *Ctx, raw stdjson.RawMessage) {
 	var w c10WideCase
-	if stdjson.Unmarshal(raw, &w) == nil && (w.Shape != nil || w.Val > 100000 || w.Val == -7 || w.Val == -8 || w.Val == -9) {
+	if stdjson.Unmarshal(raw, &w) == nil && (w.Shape != nil || w.Val > 100000 || w.Val == -7 || w.Val == -8 || w.Val == -9 || w.Val == -10) {
 		c10WideReplay(c, w)
 		return
 	}
